@@ -180,6 +180,7 @@ func RunCase(run *hx.Run, model *hx.Model, name string, rnd *hx.Rand, o Opts) *R
 		run.Report(hx.Finding{Kind: "oracle", What: "the store cannot be assembled from a fresh medium", Detail: err.Error(), Case: name})
 		return nil
 	}
+	r.Hold = true // the caller shrinks first (ReportHeld)
 	g := NewGen(rnd, o)
 	shutdownAt := -1
 	if o.Shutdown {
